@@ -4,7 +4,7 @@
 //!                panic(message).  mode "exact" (Rat always; floats on data where every operation of the Thomas
 //!                algorithm is exact): x as integers xs over a common denominator L.  mode "outcome": only whether
 //!                the call refused.  mode "units": backward-error units against double-double references.
-use super::banded::{backward_units, common_den, jscale, scal, scale2, tool_error, vec_of, BE, LIM};
+use super::banded::{backward_units, common_den, cx_common_den, f64_to_rat, gint, gr_solve, PIVOTS, jscale, scal, scale2, to_rat2, tool_error, vec_of, BE, LIM};
 use crate::dd::CDD;
 use crate::rat::Rat;
 use crate::util::*;
@@ -170,8 +170,13 @@ fn run_hist_from<T: BE>(case: &Value, out: &mut Out, k0: usize) {
             if let Res::V(v) = &res { e["rre"] = jvec(v, Part::Re); e["rim"] = jvec(v, Part::Im); } else { e["rre"] = json!([]); e["rim"] = json!([]); }
             out.ev(e); continue;
         }
-        if T::CX && matches!(name, "mul_scalar" | "mul_assign") && op.get("si").and_then(|v| v.as_i64()).unwrap_or(0) != 0 {
+        if T::CX && matches!(name, "mul_scalar" | "mul_assign" | "rebind_mul") && op.get("si").and_then(|v| v.as_i64()).unwrap_or(0) != 0 {
             let mut e = base(0); e["op"] = json!("scale_cx"); e["src"] = json!(name); e["prei"] = pre[1].clone(); e["s"] = op["s"].clone(); e["si"] = op["si"].clone();
+            match &res { Res::T(b) => { e["rt"] = jtri(b, Part::Re); e["rti"] = jtri(b, Part::Im); } _ => { e["rt"] = post[0].clone(); e["rti"] = post[1].clone(); } }
+            out.ev(e); continue;
+        }
+        if T::CX && matches!(name, "div_scalar" | "div_assign" | "rebind_div") && op.get("si").and_then(|v| v.as_i64()).unwrap_or(0) != 0 {
+            let mut e = base(0); e["op"] = json!("div_cx"); e["src"] = json!(name); e["prei"] = pre[1].clone(); e["s"] = op["s"].clone(); e["si"] = op["si"].clone();
             match &res { Res::T(b) => { e["rt"] = jtri(b, Part::Re); e["rti"] = jtri(b, Part::Im); } _ => { e["rt"] = post[0].clone(); e["rti"] = post[1].clone(); } }
             out.ev(e); continue;
         }
@@ -210,16 +215,6 @@ fn run_hist_from<T: BE>(case: &Value, out: &mut Out, k0: usize) {
 }
 
 // ------------------------------------------------------------------ det / solve on one matrix
-/// an f64 as an exact rational (dyadic); None if it does not fit
-fn f64_to_rat(x: f64) -> Option<Rat> {
-    if !x.is_finite() { return None; }
-    if x == 0.0 { return Some(Rat::int(0)); }
-    let bits = x.to_bits(); let neg = (bits >> 63) != 0; let ex = ((bits >> 52) & 0x7ff) as i64; let frac = bits & ((1u64 << 52) - 1);
-    let (mut m, mut e) = if ex == 0 { (frac as i128, -1074i64) } else { ((frac | (1u64 << 52)) as i128, ex - 1075) };
-    while m % 2 == 0 { m /= 2; e += 1; }
-    if neg { m = -m; }
-    if e >= 0 { if e > 60 { return None; } Some(Rat::new(m << e, 1)) } else { if -e > 60 { return None; } Some(Rat::new(m, 1i128 << (-e))) }
-}
 fn to_rat<T: BE>(x: &T) -> Option<(Rat, bool)> {
     let any: &dyn std::any::Any = x;
     if let Some(r) = any.downcast_ref::<Rat>() { return Some((*r, true)); }
@@ -246,7 +241,16 @@ fn run_sol<T: BE>(case: &Value, out: &mut Out) {
     let det = guarded(|| m.det());
     let sol = guarded(|| m.solve(&r));
     let (panic, msg) = match &sol { Ok(_) => (false, String::new()), Err(s) => (true, s.clone()) };
-    if mode != "units" {
+    if T::CX && mode == "exact" {
+        // Gaussian-integer data on which every complex float operation of the Thomas algorithm is exact: judged over Gaussian rationals
+        let (pre, prei) = (re_tri(&case["tri"]), im_tri(&case["tri"]));
+        let ri = case.get("ri").cloned().unwrap_or_else(|| zeros_like(&case["r"]));
+        let (rq, rqi) = match det.as_ref().ok().and_then(to_rat2) { Some((a, b)) => (jrat(a), jrat(b)), None => (json!([BAD, 1]), json!([BAD, 1])) };
+        emit(out, &mut k, json!({"op": "det_cx", "pre": pre, "prei": prei, "panic": det.is_err(), "rq": rq, "rqi": rqi}));
+        let conv: Option<Vec<(Rat, Rat)>> = sol.as_ref().ok().and_then(|x| x.vec.iter().map(to_rat2).collect());
+        let (xs, xsi, l) = match conv.and_then(|v| cx_common_den(&v, LIM)) { Some((a, b, l)) => (Value::from(a), Value::from(b), json!(l)), None => (Value::from(vec![BAD; n]), Value::from(vec![BAD; n]), json!(BAD)) };
+        emit(out, &mut k, json!({"op": "solve_cx", "pre": pre, "prei": prei, "r": case["r"], "ri": ri, "panic": panic, "msg": msg, "zero": panic && mentions_zero(&msg), "xs": xs, "xsi": xsi, "L": l}));
+    } else if mode != "units" {
         // operand = the matrix the CASE prescribes (kept inside TLC's integers by the generators); the "built" event
         // checks that the object under test holds exactly these diagonals
         let pre = re_tri(&case["tri"]);
@@ -336,6 +340,37 @@ fn dyadic(rng: &mut StdRng, n: usize, zero_at: Option<usize>) -> (Vec<i64>, Vec<
     }
     (sub, main, sup)
 }
+type G = (i64, i64);
+fn gmul(a: G, b: G) -> G { (a.0 * b.0 - a.1 * b.1, a.0 * b.1 + a.1 * b.0) }
+/// the Gaussian-integer version of `dyadic`: pivots from PIVOTS (squared modulus a power of two, mostly purely imaginary),
+/// Gaussian-integer multipliers; every complex float operation of the Thomas algorithm is exact on these data
+fn gauss_dyadic(rng: &mut StdRng, n: usize, zero_at: Option<usize>) -> (Vec<G>, Vec<G>, Vec<G>) {
+    let mut beta: Vec<G> = (0..n).map(|_| PIVOTS[rng.gen_range(0..PIVOTS.len())]).collect();
+    if let Some(s) = zero_at { beta[s] = (0, 0); }
+    let g: Vec<G> = (0..n.saturating_sub(1)).map(|_| gint(rng, 2)).collect(); let sub: Vec<G> = (0..n.saturating_sub(1)).map(|_| gint(rng, 3)).collect();
+    let mut main = vec![beta[0]]; let mut sup = vec![];
+    for j in 0..n.saturating_sub(1) {
+        let bj = if beta[j] == (0, 0) || zero_at.map(|s| j > s).unwrap_or(false) { (1, 0) } else { beta[j] };
+        sup.push(gmul(bj, g[j])); let t = gmul(sub[j], g[j]); main.push((beta[j + 1].0 + t.0, beta[j + 1].1 + t.1));
+    }
+    (sub, main, sup)
+}
+/// can TLC decide this Gaussian-integer case (complex minors and residual inside 32-bit integers)?
+fn fits_tlc_cx(sub: &[G], main: &[G], sup: &[G], r: &[G]) -> bool {
+    let n = main.len(); let w = |p: G| (p.0 as i128, p.1 as i128);
+    let mut big = 0i128; let mut mul = |a: (i128, i128), b: (i128, i128)| { let t = [a.0 * b.0, a.1 * b.1, a.0 * b.1, a.1 * b.0]; for v in t { big = big.max(v.abs()); } (t[0] - t[1], t[2] + t[3]) };
+    let mut f: Vec<(i128, i128)> = vec![(1, 0), w(main[0])];
+    for j in 2..=n { let t1 = mul(w(main[j - 1]), f[j - 1]); let ss = mul(w(sub[j - 2]), w(sup[j - 2])); let t2 = mul(ss, f[j - 2]); f.push((t1.0 - t2.0, t1.1 - t2.1)); }
+    let fmax = f.iter().map(|p| p.0.abs().max(p.1.abs())).max().unwrap();
+    if big.max(fmax) >= (1 << 29) { return false; }
+    if f[1..].iter().any(|p| *p == (0, 0)) { return true; }
+    let a: Vec<Vec<G>> = (0..n).map(|i| (0..n).map(|j| if i == j { main[i] } else if i == j + 1 { sub[j] } else if i + 1 == j { sup[i] } else { (0, 0) }).collect()).collect();
+    match gr_solve(&a, r) { Some(x) => cx_common_den(&x, LIM).is_some(), None => false }
+}
+fn gtri_json(sub: &[G], main: &[G], sup: &[G]) -> Value {
+    let p = |v: &[G], k: usize| -> Vec<i64> { v.iter().map(|x| if k == 0 { x.0 } else { x.1 }).collect() };
+    json!({"n": main.len(), "sub": p(sub, 0), "main": p(main, 0), "sup": p(sup, 0), "subi": p(sub, 1), "maini": p(main, 1), "supi": p(sup, 1)})
+}
 fn fl(rng: &mut StdRng) -> Value { json!({"m": rng.gen_range(-(1i64 << 20)..=(1i64 << 20)), "e": -rng.gen_range(14..=20)}) }
 
 fn hist_ops(rng: &mut StdRng, n: usize, ty: &str, len: usize) -> Vec<Value> {
@@ -356,10 +391,10 @@ fn hist_ops(rng: &mut StdRng, n: usize, ty: &str, len: usize) -> Vec<Value> {
             6 => json!({"op": "neg"}),
             7 => json!({"op": "add", "b": rand_tri(rng, n, -9, 9, cx)}),
             8 => json!({"op": "sub", "b": rand_tri(rng, n, -9, 9, cx)}),
-            9 => json!({"op": "mul_scalar", "s": rng.gen_range(-3..=3), "si": rng.gen_range(-3..=3)}),
-            10 => json!({"op": "div_scalar", "s": if rng.gen_bool(0.5) { 1 } else { -1 }}),
+            9 => { let (s, si) = if cx && rng.gen_bool(0.6) { [(0i64, 1i64), (0, -1), (0, 2), (-1, 0)][rng.gen_range(0..4)] } else { (rng.gen_range(-3..=3), rng.gen_range(-3..=3)) }; json!({"op": "mul_scalar", "s": s, "si": si}) }
+            10 => { let (s, si) = if cx { [(0i64, 1i64), (0, -1), (-1, 0), (1, 0)][rng.gen_range(0..4)] } else { (if rng.gen_bool(0.5) { 1 } else { -1 }, 0) }; json!({"op": "div_scalar", "s": s, "si": si}) }
             11 => if scale_budget == 0 { json!({"op": "clone"}) } else { scale_budget -= 1; json!({"op": "mul_assign", "s": ([-2i64, 2, 3, -1][rng.gen_range(0..4)]), "si": rng.gen_range(-1..=1)}) },
-            12 => json!({"op": "div_assign", "s": if rng.gen_bool(0.5) { 1 } else { -1 }}),
+            12 => { let (s, si) = if cx { [(0i64, 1i64), (0, -1), (-1, 0), (1, 0)][rng.gen_range(0..4)] } else { (if rng.gen_bool(0.5) { 1 } else { -1 }, 0) }; json!({"op": "div_assign", "s": s, "si": si}) }
             13 => json!({"op": "add_scalar_assign", "s": rng.gen_range(-9..=9), "si": rng.gen_range(-9..=9)}),
             14 => json!({"op": "sub_scalar_assign", "s": rng.gen_range(-9..=9), "si": rng.gen_range(-9..=9)}),
             15 | 16 => json!({"op": "matvec", "form": form, "v": rv(rng, n, -5, 5), "vi": rv(rng, n, -5, 5)}),
@@ -373,7 +408,9 @@ fn hist_ops(rng: &mut StdRng, n: usize, ty: &str, len: usize) -> Vec<Value> {
     }
     let s = [2i64, -2, 3, 5][rng.gen_range(0..4)];
     ops.push(json!({"op": "new", "n": n})); ops.push(json!({"op": "add_scalar_assign", "s": s * rng.gen_range(-4..=4), "si": s * rng.gen_range(-4..=4)}));
-    ops.push(json!({"op": "mul_assign", "s": s})); ops.push(json!({"op": "div_scalar", "s": s})); ops.push(json!({"op": "div_assign", "s": s})); ops.push(json!({"op": "convert"}));
+    ops.push(json!({"op": "mul_assign", "s": s}));
+    if cx { ops.push(json!({"op": "mul_assign", "s": 2})); ops.push(json!({"op": "div_scalar", "s": 0, "si": 2})); ops.push(json!({"op": "div_assign", "s": 0, "si": -2})); ops.push(json!({"op": "mul_assign", "s": 0, "si": 1})); }
+    ops.push(json!({"op": "div_scalar", "s": s})); ops.push(json!({"op": "div_assign", "s": s})); ops.push(json!({"op": "convert"}));
     if !cx { for o in ops.iter_mut() { if let Some(m) = o.as_object_mut() { for k in ["xi", "si", "vi", "loi", "dii", "upi"] { m.remove(k); } } } }
     ops
 }
@@ -414,6 +451,27 @@ pub fn gen(tier: &str, seed: u64, out: &mut Out) {
             for ty in tys { push(out, json!({"kind": "sol", "ty": ty, "mode": "exact", "fam": if s.is_some() { "zero-pivot" } else { "dyadic" }, "step": s.map(|x| x as i64).unwrap_or(-1),
                 "ctor": ctors[(q + rep) % 3], "tri": tri_json(&sub, &main, &sup), "r": r})); }
         } }
+        // (c') the same over Gaussian integers (Complex): purely imaginary pivots, zero pivot at a chosen step, judged exactly
+        let mut gsteps: Vec<Option<usize>> = vec![None, None, None]; if quick { gsteps.push(Some(rng.gen_range(0..n))); gsteps.push(Some(n - 1)); } else { gsteps.extend((0..n).map(Some)); gsteps.extend([None; 5]); }
+        for (q, s) in gsteps.iter().enumerate() {
+            let mut found = None;
+            for _ in 0..80 { let (sub, main, sup) = gauss_dyadic(&mut rng, n, *s); let r: Vec<G> = (0..n).map(|_| gint(&mut rng, 5)).collect();
+                if fits_tlc_cx(&sub, &main, &sup, &r) { found = Some((sub, main, sup, r)); break; } }
+            if let Some((sub, main, sup, r)) = found {
+                push(out, json!({"kind": "sol", "ty": "cx", "mode": "exact", "fam": if s.is_some() { "gauss-zero-pivot" } else { "gauss" }, "step": s.map(|x| x as i64).unwrap_or(-1), "ctor": ctors[q % 3],
+                    "tri": gtri_json(&sub, &main, &sup), "r": r.iter().map(|p| p.0).collect::<Vec<i64>>(), "ri": r.iter().map(|p| p.1).collect::<Vec<i64>>(),
+                    "v": rv(&mut rng, n, -3, 3), "vi": rv(&mut rng, n, -3, 3)}));
+            }
+        }
+        // (c'') Complex, diagonally dominant, every entry exactly on the real or on the imaginary axis (integers): backward-error units
+        for rep in 0..(if quick { 3 } else { 12 }) {
+            let ax = |rng: &mut StdRng, v: i64| -> G { let x = rng.gen_range(1..=v) * if rng.gen_bool(0.5) { 1 } else { -1 }; if rng.gen_bool(0.6) { (0, x) } else { (x, 0) } };
+            let sub: Vec<G> = (0..n - 1).map(|_| ax(&mut rng, 4)).collect(); let sup: Vec<G> = (0..n - 1).map(|_| ax(&mut rng, 4)).collect();
+            let main: Vec<G> = (0..n).map(|_| { let x = rng.gen_range(10i64..=40) * if rng.gen_bool(0.5) { 1 } else { -1 }; if rep % 3 != 2 { (0, x) } else { (x, 0) } }).collect();
+            let r: Vec<G> = (0..n).map(|_| gint(&mut rng, 9)).collect();
+            push(out, json!({"kind": "sol", "ty": "cx", "mode": "units", "fam": "axis-dominant", "tri": gtri_json(&sub, &main, &sup),
+                "r": r.iter().map(|p| p.0).collect::<Vec<i64>>(), "ri": r.iter().map(|p| p.1).collect::<Vec<i64>>(), "v": rv(&mut rng, n, -3, 3), "vi": rv(&mut rng, n, -3, 3)}));
+        }
         // (d) diagonally dominant systems: Rat exact, floats in backward-error units
         for rep in 0..(if quick { 4 } else { 30 }) {
             let ty = TYS[rep % 3];
@@ -485,7 +543,7 @@ impl Sim {
             "transpose_in_place" => std::mem::swap(&mut self.sub, &mut self.sup),
             "resize" => { let n = getu(op, "n"); self.sub = vec![0; n - 1]; self.main = vec![0; n]; self.sup = vec![0; n - 1]; }
             "add_scalar_assign" => all(self, &|v| v + s), "sub_scalar_assign" => all(self, &|v| v - s),
-            "mul_assign" | "rebind_mul" => all(self, &|v| v * s), "div_assign" | "rebind_div" => all(self, &|v| v / s),
+            "mul_assign" | "rebind_mul" => all(self, &|v| v * s), "div_assign" | "rebind_div" => if s != 0 { all(self, &|v| v / s) },
             "rebind_neg" => all(self, &|v| -v),
             "rebind_add" => with(self, &op["b"], 1), "rebind_sub" => with(self, &op["b"], -1),
             _ => {}
@@ -506,6 +564,10 @@ fn seq_case(rng: &mut StdRng, n: usize, ty: &str, mag: i64) -> (Value, f64) {
     let cx = ty == "cx"; let exact = ty == "rat";
     let mut tri = rand_tri(rng, n, -mag, mag, cx);
     if !exact { let m: Vec<i64> = (0..n).map(|_| rng.gen_range(24i64..=40) * if rng.gen_bool(0.5) { 1 } else { -1 }).collect(); tri["main"] = Value::from(m); }
+    if cx {   // two thirds of the off-diagonal entries exactly on an axis; in half of the sequences a purely imaginary dominant diagonal
+        for f in ["sub", "sup"] { let fi = format!("{}i", f); for k in 0..n - 1 { match rng.gen_range(0..3) { 0 => tri[f][k] = json!(0), 1 => tri[fi.as_str()][k] = json!(0), _ => {} } } }
+        if rng.gen_bool(0.5) { let m = tri["main"].clone(); tri["maini"] = m; tri["main"] = Value::from(vec![0i64; n]); }
+    }
     let mut sim = Sim { sub: ivec(&tri["sub"]), main: ivec(&tri["main"]), sup: ivec(&tri["sup"]) };
     let mut ops = vec![]; let (mut fitn, mut tot) = (0usize, 0usize);
     let mut probe = |rng: &mut StdRng, sim: &Sim, ops: &mut Vec<Value>| { tot += 1; if probes(rng, sim, exact, cx, ops) { fitn += 1; } };
@@ -521,19 +583,24 @@ fn seq_case(rng: &mut StdRng, n: usize, ty: &str, mag: i64) -> (Value, f64) {
             2 | 3 => vec![json!({"op": "transpose_in_place"})],
             4 => vec![json!({"op": "add_scalar_assign", "s": small(rng), "si": small(rng)})],
             5 => vec![json!({"op": "sub_scalar_assign", "s": small(rng), "si": small(rng)})],
-            6 => vec![json!({"op": "mul_assign", "s": ([2i64, -2, 3][rng.gen_range(0..3)])})],
-            7 => { let s = [2i64, -2, 3][rng.gen_range(0..3)]; vec![json!({"op": "mul_assign", "s": s}), json!({"op": "div_assign", "s": s})] }
+            6 => if cx { let z = [(0i64, 1i64), (0, -1), (0, 2), (-1, 0)][rng.gen_range(0..4)]; vec![json!({"op": "mul_assign", "s": z.0, "si": z.1, "keepsi": true})] }
+                 else { vec![json!({"op": "mul_assign", "s": ([2i64, -2, 3][rng.gen_range(0..3)])})] },
+            7 => if cx { let z = [(0i64, 2i64), (0, -2)][rng.gen_range(0..2)]; let w = [(0i64, 1i64), (0, -1), (-1, 0)][rng.gen_range(0..3)];
+                     vec![json!({"op": "mul_assign", "s": 2}), json!({"op": "div_assign", "s": z.0, "si": z.1, "keepsi": true}), json!({"op": "div_assign", "s": w.0, "si": w.1, "keepsi": true})] }
+                 else { let s = [2i64, -2, 3][rng.gen_range(0..3)]; vec![json!({"op": "mul_assign", "s": s}), json!({"op": "div_assign", "s": s})] },
             8 => vec![json!({"op": "rebind_neg"})],
             9 => vec![json!({"op": "rebind_add", "b": rand_tri(rng, cn, -2, 2, cx)})],
             10 => vec![json!({"op": "rebind_sub", "b": rand_tri(rng, cn, -2, 2, cx)})],
-            11 => vec![json!({"op": "rebind_mul", "s": ([2i64, -2, 3][rng.gen_range(0..3)])})],
-            12 => { let s = [2i64, -2, 3][rng.gen_range(0..3)]; vec![json!({"op": "rebind_mul", "s": s}), json!({"op": "rebind_div", "s": s})] }
+            11 => if cx { let z = [(0i64, 1i64), (0, -1), (0, 2), (-1, 0)][rng.gen_range(0..4)]; vec![json!({"op": "rebind_mul", "s": z.0, "si": z.1, "keepsi": true})] }
+                  else { vec![json!({"op": "rebind_mul", "s": ([2i64, -2, 3][rng.gen_range(0..3)])})] },
+            12 => if cx { let z = [(0i64, 2i64), (0, -2)][rng.gen_range(0..2)]; vec![json!({"op": "rebind_mul", "s": 2}), json!({"op": "rebind_div", "s": z.0, "si": z.1, "keepsi": true})] }
+                  else { let s = [2i64, -2, 3][rng.gen_range(0..3)]; vec![json!({"op": "rebind_mul", "s": s}), json!({"op": "rebind_div", "s": s})] },
             _ => { let n2 = rng.gen_range(1..=(cn + 1).min(12)); let mut v = vec![json!({"op": "resize", "n": n2})]; for i in 0..n2 { v.push(diag(rng, i, exact)); }
                    for i in 0..n2.saturating_sub(1) { v.push(json!({"op": "set", "i": i + 1, "j": i, "x": small(rng), "xi": small(rng), "quiet": true})); v.push(json!({"op": "set", "i": i, "j": i + 1, "x": small(rng), "xi": small(rng), "quiet": true})); } v }
         };
         for o in batch.iter_mut() {
             if !cx { if let Some(m) = o.as_object_mut() { m.remove("xi"); m.remove("si"); } }
-            let quiet = o.get("quiet").is_some(); if let Some(m) = o.as_object_mut() { m.remove("quiet"); }
+            let quiet = o.get("quiet").is_some(); if let Some(m) = o.as_object_mut() { m.remove("quiet"); m.remove("keepsi"); }
             sim.apply(o); ops.push(o.clone());
             if !quiet { probe(rng, &sim, &mut ops); }
         }
